@@ -366,3 +366,47 @@ class RouterDiagnosticsRead:
                 and result.dropped_nearest_neighbour == _le32at(g_block, 40) and result.dropped_fixed_route == _le32at(g_block, 44)
                 and result.counter12 == _le32at(g_block, 48) and result.counter13 == _le32at(g_block, 52)
                 and result.counter14 == _le32at(g_block, 56) and result.counter15 == _le32at(g_block, 60))
+
+from pyvc.values import TBool as _TBool14   # noqa: E402,F401
+
+# ---- SystemInfo.dead_links / dead_chips: one candidate (fragments) - what build_machine records as dead ------------------------------
+
+
+@contract("rig/machine_control/machine_controller.py::SystemInfo.dead_links@forbody:1")
+class SystemInfoDeadLinkStep:
+    """one link of one responding chip: reported dead exactly when the chip's probe does not list it as working"""
+    properties = ("C14",)
+    params = dict(x=TInt(0, 255), y=TInt(0, 255), link=TInt(0, 5), chip_info=TRec("ChipInfo", working_links=TSmallSet(list(range(6)))))
+    fragment_result = ()
+    fragment_head = "for link in Links:"
+    yields = TTuple(TInt(), TInt(), TInt(0, 5))
+    options = {"int_class": "rig/links.py::Links", "no_merge": True}
+
+    def native(x):
+        raise __import__("pyvc.replay", fromlist=["OutsideHarness"]).OutsideHarness()
+
+    def ensures_dead_exactly_when_not_listed_as_working(x, y, link, chip_info, _yielded):
+        return (implies(link not in chip_info.working_links, len(_yielded) == 1 and _yielded[0] == (x, y, link))
+                and implies(link in chip_info.working_links, len(_yielded) == 0))
+
+
+def _si_contains(E, obj, args, kwargs, st, node):
+    return [(st, st.env["g_responded"], None)]
+
+
+@contract("rig/machine_control/machine_controller.py::SystemInfo.dead_chips@forbody:1")
+class SystemInfoDeadChipStep:
+    """one chip position inside the machine's extent: reported dead exactly when no probe result is held for it"""
+    properties = ("C14",)
+    params = dict(self=TRec("SystemInfo", width=TInt(1, 256), height=TInt(1, 256)), x=TInt(0, 255), y=TInt(0, 255), g_responded=_TBool14())
+    fragment_result = ()
+    fragment_head = "for y in range(self.height):"
+    externals = {"SystemInfo.__contains__": _si_contains}
+    yields = TTuple(TInt(), TInt())
+    options = {"no_merge": True}
+
+    def native(x):
+        raise __import__("pyvc.replay", fromlist=["OutsideHarness"]).OutsideHarness()
+
+    def ensures_dead_exactly_when_nothing_is_held_for_it(x, y, g_responded, _yielded):
+        return implies(not g_responded, len(_yielded) == 1 and _yielded[0] == (x, y)) and implies(g_responded, len(_yielded) == 0)
